@@ -890,7 +890,7 @@ GENERIC = {
     "C10": (900, 50000, 70, 500),
     "C12": (60, 600, 4000, 20000),
     "C11": (6000, 400000, 500, 4000),
-    "C15": (8, 64, 12, 40),
+    "C15": (64, 64, 40, 40),
     "C18": (2500, 120000, 250, 2000),
     "C19": (1500, 60000, 400, 3000),
     "C20": (1, 1, 4, 4),
@@ -898,7 +898,7 @@ GENERIC = {
 LEVELS = {"C19": "exploration"}
 RULES.update({
     "C11": "raw boards: the valid positions of the stream + 14 kinds of mutation of valid positions (king removed/added, pawn on 1st/8th rank, e.p. mark anywhere / on the right rank with or without its pawn structure, rights toggled with home squares disturbed, 16/17 men, side flipped, man dropped) + arbitrary random boards + every e.p. mark on every square for both sides and all 16 rights sets on two skeletons; non-trivial = rejected, or accepted with normalisation changing something",
-    "C15": "for the enumerated squares every subset of the relevant-occupancy mask (4096 max for rooks, 512 for bishops), each also with random blockers OUTSIDE the mask, plus random and full/empty occupancies (quick: 8 random squares complete, the others sampled; thorough: all 64 complete); king/knight/pawn tables for 64 squares x 2 colours; strictly-between sets and alignment predicates for all 64x64 pairs; every event is non-trivial, distinct by (piece, square, chunk)",
+    "C15": "for the enumerated squares every subset of the relevant-occupancy mask (4096 max for rooks, 512 for bishops), each also with random blockers OUTSIDE the mask, plus random and full/empty occupancies (both tiers: all 64 squares complete = every relevant occupancy of every square; thorough: five noisy variants of each instead of one); king/knight/pawn tables for 64 squares x 2 colours; strictly-between sets and alignment predicates for all 64x64 pairs; every event is non-trivial, distinct by (piece, square, chunk)",
     "C18": "for every position of the stream the colour-mirrored position is built through the public API and both bundles (legal moves, check, has_legal, outcome) are logged; same for the left-right flop when there are no castling rights; non-trivial = position with check, e.p., castling rights, or a flop",
     "C19": "capacity: |PseudoLegal| by the spec = length of the safe Vec sink = length of the fixed-capacity MoveList <= 256, on the position stream, on hill-climbing maximisers of the semilegal move count (all-queen armies) and their neighbours; SAN pawn moves/captures to every square incl. the mover's own back rank; in a build with debug assertions, overflow and unsafe-precondition checks AND in an optimised build; non-trivial = position with >= 60 semilegal moves or a boundary text",
     "C20": "every value of every finite type (8 files, 8 ranks, 64 squares, 6 pieces, 13 cells, 2 colours, 16 rights sets) through index/char/text conversions; from_index(i) for i < 300; from_char for all characters < U+0300 and samples up to U+10FFFF; every 1- and 2-character string over printable ASCII + 4 multi-byte characters through the four FromStr; bitboard algebra on all pairs of subsets of a 6-square universe, unary operations on all subsets of a 12-square universe + random 64-bit sets, bit deposit incl. EMPTY and FULL masks; shift for all squares x 41x41 offsets (+-20) and 68 larger offsets up to the extremes of isize, add for offsets -70..70; Move/MoveKind/RawBoard value-level API (notes only); every named constant; each event is one distinct block",
@@ -930,7 +930,7 @@ def plan_generic(prop, tier, seed):
     n, cap = GENERIC[prop][qi], GENERIC[prop][2 + qi]
     out = fresh_dir(os.path.join(WORK, f"{prop}-{tier}"))
     t0 = time.time()
-    env = {"HARNESS_DEEP": "1"} if (tier == "thorough" and prop == "C12") else None
+    env = {"HARNESS_DEEP": "1"} if (tier == "thorough" and prop in ("C12", "C15")) else None
     rc, txt_ = run_harness(binary, ["gen", prop, n, seed, out, cap], env=env)
     log(f"[gen] {txt_.strip().splitlines()[-1] if txt_.strip() else ''} rc={rc} in {time.time() - t0:.1f}s")
     if not harness_outcome(run, rc, txt_, out):
